@@ -1,0 +1,22 @@
+//go:build verif
+
+// Contracts for the deductive verifier in /verif (comment-only file; see /verif/DESIGN.md).
+package offsetfetch
+
+//@ property C04 C03 C19
+
+// Wire layout per version, from the Kafka protocol definition of this API (field order, types and the versions each field
+// exists in); the encoders and decoders are compiled from the struct tags, so the tags are checked against it.
+//@ wire Request
+//@   layout v0..v5 GroupID string, Topics []RequestTopic?
+//@ wire RequestTopic
+//@   layout v0..v5 Name string, PartitionIndexes []int32
+//@ wire Response
+//@   layout v0..v1 Topics []ResponseTopic
+//@   layout v2 Topics []ResponseTopic, ErrorCode int16
+//@   layout v3..v5 ThrottleTimeMs int32, Topics []ResponseTopic, ErrorCode int16
+//@ wire ResponseTopic
+//@   layout v0..v5 Name string, Partitions []ResponsePartition
+//@ wire ResponsePartition
+//@   layout v0..v4 PartitionIndex int32, CommittedOffset int64, Metadata string?, ErrorCode int16
+//@   layout v5 PartitionIndex int32, CommittedOffset int64, ComittedLeaderEpoch int32, Metadata string?, ErrorCode int16
